@@ -1003,12 +1003,22 @@ def oracle_C15(an):
         if t[0] != "drain" or t[2] != "1" or t[3] != "1" or len(t) > 4:
             continue
         last = an.lines[idxs[-1]]
-        if last.ret != 0 and last.q[1] == 0 and len(idxs) >= int(t[1]) and not an.uns_hold and not an.tr.abort:
-            v.append("drain of %d calls at op %d never reached OK (last ret %d)" % (len(idxs), k, last.ret))
-        # linear bound
+        # linear bound on the calls a drain may need: every input byte costs one read step plus one
+        # table sweep, every response byte one write step (generous constants)
         ncmd = len([c for c in an.scn.cmds if c.group >= 0])
         pending_in = len(an.input)
         bound = 200 + 40 * (pending_in + 8) * (ncmd + 8) + 60 * an.scn.buf * (an.scn.cap + 2)
+        # "never reached OK" is a finding when the drain was given at least `bound` calls, or when
+        # the calls it used exceed what its observed progress explains (every byte read costs at
+        # most one table sweep, every byte written a few steps, every callback a few steps)
+        reads = sum(1 for j in idxs for e in an.ev[j] if e[0] == "R" and e[1] is not None)
+        writes = sum(1 for j in idxs for e in an.ev[j] if e[0] == "W")
+        cbs = sum(1 for j in idxs for e in an.ev[j] if e[0] in ("H", "V"))
+        explained = 200 + reads * (2 * ncmd + 12) + writes * 6 + cbs * (4 * ncmd + 40)
+        if (last.ret != 0 and last.q[1] == 0 and len(idxs) >= int(t[1])
+                and (int(t[1]) >= bound or len(idxs) > explained)
+                and not an.uns_hold and not an.tr.abort):
+            v.append("drain of %d calls at op %d never reached OK (last ret %d)" % (len(idxs), k, last.ret))
         if last.ret == 0 and len(idxs) > bound:
             v.append("drain at op %d needed %d calls, bound %d" % (k, len(idxs), bound))
     return v
